@@ -3,6 +3,10 @@
 T-gen : Gen/Flags.v regenerated from pandora/constants.py (imported values) and from an `ast` scan of EVERY
         write to a validity mask in the anchored modules (operator, constant, syntactic guard); obligation
         wf_env Gen = true re-proved by vm_compute on every run.
+        Gen/CriteriaFns.v regenerated from pandora/criteria.py (`ast`, statement by statement over the numpy combinators of
+        Lib/NpCrit.v, fail closed): validity_mask, allocate_left_mask, allocate_right_mask (the loop), mask_invalid_variable_
+        disparity_range, mask_border, binary_dilation_msk; obligations "generated = Model/Criteria.v, element by element, on
+        every layout and ROI origin, err = false" (Proofs/CriteriaGenP.v, C04_gen_*), re-proved on every run.
 T-corr: (A) the real criteria functions (criteria.validity_mask, then compute_cost_volume + cv_masked, called
         as PandoraMachine.matching_cost_prepare/_run call them) against the extracted Model/Criteria.v on
         generated (masks, interval or grids, window, subpix) layouts, exact;
@@ -23,7 +27,7 @@ import numpy as np
 from harness import core
 from harness import pandora_util as pu
 
-GEN = ["gen_flags"]
+GEN = ["gen_flags", "gen_criteria_fns"]
 EXTRACT_FILES = ["X04"]
 DRIVERS = ["x04"]
 RULE = ("(A) layouts = (rows, cols, window, interval or grids, subpix, measure in sad/ssd/census/zncc, left/right masks over "
@@ -36,7 +40,15 @@ RULE = ("(A) layouts = (rows, cols, window, interval or grids, subpix, measure i
         "6..9 x 9..13 masked images (window 1/3/5, sad/ssd/census/zncc, subpix 1/2, invalid_disparity -9999 / NaN / 77); non-trivial when some flag changes after the disparity step; distinct by "
         "(step list, image seed)")
 ASSUMES = [
-    "cv.coords['col'] = 0..nc-1 with step 1 (no ROI, step_col = 1), odd window sizes, integer global interval",
+    "cv.coords['col'] consecutive integers with step 1 (step_col = 1) starting anywhere (ROI: the T-gen theorems "
+    "C04_gen_* hold for every origin (r0, c0) of the coordinates; the hand-written model itself works on 0-based positions), "
+    "odd window sizes, integer global interval; both images carry the coordinates of the cost volume (xr.align is then the "
+    "identity; other coordinates raise the error flag of the generated code and are outside the theorems)",
+    "Lib/NpCrit.v: the meaning of the numpy / xarray / scipy constructs criteria.py uses (column fancy indexing with distinct "
+    "non-negative indices, np.where, np.setdiff1d of an increasing array, .astype(np.uint16) = mod 65536, unbounded integers "
+    "for the int64 arrays, Python slices, the cost volume seen through its NaN pattern); the three-line composition "
+    "validity_mask -> mask_invalid_variable_disparity_range -> mask_border if offset > 0 (gen_after_mc) is hand-written after "
+    "state_machine.matching_cost_prepare / matching_cost.cv_masked",
     "scipy.ndimage.binary_dilation by ones((w,w)) is modelled by its index contract (validated by this "
     "correspondence on every run)",
     "the 0/1 factors of the flag writes (dil, comp, msk[arg_valid]) are 0/1 (modelled as booleans)",
@@ -55,7 +67,9 @@ ASSUMES = [
     "plugin steps (optimization, semantic_segmentation), multiscale pyramids and the dead functions "
     "approximate_right_disparity / approximate_subpixel_refinement are outside the pipeline theorem",
 ]
-TRUSTED = ["Gen/Flags.v produced by translator/gen_flags.py (constants by import, flag writes by ast)"]
+TRUSTED = ["Gen/Flags.v produced by translator/gen_flags.py (constants by import, flag writes by ast)",
+           "Gen/CriteriaFns.v produced by translator/gen_criteria_fns.py (ast, statement by statement, fail closed) over the "
+           "combinators of Lib/NpCrit.v"]
 
 INVALID_BEFORE_VALIDATION = 0b11000011
 
@@ -692,7 +706,9 @@ def part_b(ctx, model):
 def run(ctx):
     model = core.Model("x04")
     wf, unsafe = model.call(4, [])
-    ctx.gen_obligations = ["wf_env (mkEnv Gen.Flags.consts Gen.Flags.flag_sites) = true (vm_compute)"]
+    import gen_criteria_fns
+    ctx.gen_obligations = (["wf_env (mkEnv Gen.Flags.consts Gen.Flags.flag_sites) = true (vm_compute)"]
+                           + list(gen_criteria_fns.OBLIGATIONS))
     ctx.stats["unsafe_repetition_classes_of_this_tree"] = unsafe
     if wf != 1:
         ctx.broken_obligation("wf_env", "the regenerated flag sites / constants are not well-formed")
